@@ -88,6 +88,14 @@ func forcedHistories() [][]chOp {
 		}
 		return o
 	}
+	// long batches: far beyond the 256 openings / 16 coefficients of the shipped proofs
+	ex := func(n int) chOp {
+		o := chOp{Op: "exts"}
+		for i := 0; i < 2*n; i++ {
+			o.Vals = append(o.Vals, uint64(i+1)<<21|uint64(i%5))
+		}
+		return o
+	}
 	return [][]chOp{
 		{},
 		{{Op: "get"}},
@@ -97,6 +105,15 @@ func forcedHistories() [][]chOp {
 		{el(3), {Op: "getn", N: 3}, el(1), {Op: "getn", N: 8}, {Op: "get"}},
 		{el(16), {Op: "gethash"}, {Op: "gethash"}, {Op: "get"}},
 		{{Op: "getn", N: 8}, {Op: "get"}, el(8), el(8), {Op: "getext"}},
+		{ex(256), {Op: "get"}},
+		{ex(512), {Op: "getext"}},
+		{ex(513), {Op: "get"}},
+		{ex(600), {Op: "gethash"}},
+		{ex(1025), {Op: "getn", N: 9}},
+		{el(1024), {Op: "get"}},
+		{el(1025), {Op: "get"}},
+		{el(2049), {Op: "getext"}},
+		{el(5), ex(700), el(3), {Op: "getn", N: 9}, ex(515), {Op: "get"}},
 	}
 }
 
@@ -262,7 +279,7 @@ func init() {
 		return &fw.Prop{
 			ID:          "C11",
 			Level:       "exploration",
-			Rule:        "cases = 'history' (seeded random observe/squeeze sequences of length 0..200 over element / elements / hash / BN254 hash / cap / extension observations and single / multiple / extension / hash challenge requests, plus forced rate-boundary, observe-after-squeeze and empty-buffer patterns) executed on the real challenger chip; every squeezed value must equal the native duplex challenger fed the same history; 'transcript' (real proofs and random transcripts of the same shape) -> all challenges of VerifierChip.GetChallenges vs. the reference transcript; 'influence' (real proof, observed leaf position) -> after changing the observed value every challenge drawn before it is unchanged and every challenge drawn after it changes. Non-trivial = at least one challenge compared; distinct by case id. Also: consecutive windows of one slice observed with other observations in between, use of the challenger after GetFriChallenges, description fields the transcript must not depend on varied, and a 46-operation history compiled with a real builder (values are circuit variables).",
+			Rule:        "cases = 'history' (seeded random observe/squeeze sequences of length 0..200 over element / elements / hash / BN254 hash / cap / extension observations and single / multiple / extension / hash challenge requests, plus forced rate-boundary, observe-after-squeeze and empty-buffer patterns and single batches of 256..1025 extension elements / 1024..2049 elements) executed on the real challenger chip; every squeezed value must equal the native duplex challenger fed the same history; 'transcript' (real proofs and random transcripts of the same shape) -> all challenges of VerifierChip.GetChallenges vs. the reference transcript; 'influence' (real proof, observed leaf position) -> after changing the observed value every challenge drawn before it is unchanged and every challenge drawn after it changes. Non-trivial = at least one challenge compared; distinct by case id. Also: consecutive windows of one slice observed with other observations in between, use of the challenger after GetFriChallenges, description fields the transcript must not depend on varied, and a 46-operation history compiled with a real builder (values are circuit variables).",
 			Assumptions: []string{"the reference challenger follows plonky2's Challenger (validated through the challenge values hard-coded in the repository's FRI test and by accepting the real proofs)"},
 			MinEvents:   100000,
 			Setup:       func(ctx *fw.Ctx) error { return refSelfTest(true) },
